@@ -21,7 +21,7 @@ package client
 //@   ensures[C03.status_kept] err != nil && isStatus(err) && stCode(err) != 0 && !errIs(err, context.Canceled) && !errIs(err, context.DeadlineExceeded) ==>
 //@     | isStatus(result) && stCode(result) == stCode(err) && stMsg(result) == stMsg(err) && stDetails(result) == stDetails(err)
 //@   ensures[C09.error_stays_error C13.error_stays_error] err != nil && !(isStatus(err) && stCode(err) == 0) ==> result != nil
-//@   ensures[C03.plain_error_unknown C09.never_eof] err != nil && !isStatus(err) ==> result != nil && result != io.EOF && isStatus(result)
+//@   ensures[C03.plain_error_unknown C09.never_eof C13.never_eof C02.never_eof] err != nil && !isStatus(err) ==> result != nil && result != io.EOF && isStatus(result)
 
 // ---------------------------------------------------------------------------------
 // RpcMultiplexer: registry of response channels, guarded by rm.mutex
@@ -115,6 +115,7 @@ package client
 //@   captures[C05.own_channel] isclass(respChan, "client.handlers")
 //@   ensures[C09.closed_channel_is_error C13.wellformed] (result.1 == nil) != (result.0 == nil)
 //@   ensures[C05.only_own_envelopes] result.1 == nil ==> result.0.Id == tag(respChan)
+//@   ensures[C07.context_end_reported_as_the_context_error C03.context_end_reported_as_the_context_error] !bound("ok") ==> result.1 != nil && (errIs(result.1, context.Canceled) || errIs(result.1, context.DeadlineExceeded))
 
 // write closure: forwards the envelope unchanged
 //@ func client.(*RpcMultiplexer).NewStreamReadWriter$3
@@ -152,6 +153,7 @@ package client
 
 //@ func client.(*clientStream).CloseSend
 //@   nopanic[C13.nopanic]
+//@   atcall[C15.envelope_and_header_not_shared C02.envelope_and_header_not_shared] (types.RpcReadWriter).Write : fresh(arg2) && fresh(arg2.Header)
 //@   atcall[C06.half_close_shape C02.half_close_shape] (types.RpcReadWriter).Write :
 //@     | arg2 != nil && arg2.Id == cs.id && arg2.Header != nil && arg2.Header.Method == cs.method && arg2.Header.Source == cs.sourceAddress && arg2.Header.Destination == cs.destAddress
 //@     | && arg2.Status != nil && arg2.Status.Code == 0 && arg2.Trailer != nil && arg2.Body == nil && arg2.Reset_ == nil && arg1 == cs.ctx
@@ -160,6 +162,7 @@ package client
 //@ func client.(*clientStream).SendMsg
 //@   nopanic[C13.nopanic]
 //@   atcall[C06.reset_only_from_read_loop C07.reset_only_from_read_loop] fnfield:H.client.clientStream.teardown : !arg0
+//@   atcall[C15.envelope_and_header_not_shared C02.envelope_and_header_not_shared] (types.RpcReadWriter).Write : fresh(arg2) && fresh(arg2.Header)
 //@   atcall[C06.message_shape C02.message_shape C07.send_uses_stream_ctx] (types.RpcReadWriter).Write :
 //@     | arg2 != nil && arg2.Id == cs.id && arg2.Header != nil && arg2.Header.Method == cs.method && arg2.Header.Source == cs.sourceAddress && arg2.Header.Destination == cs.destAddress
 //@     | && arg2.Body != nil && arg2.Body.Data == bsContent(body) && arg2.Status == nil && arg2.Trailer == nil && arg2.Reset_ == nil && arg1 == cs.ctx
